@@ -37,6 +37,25 @@ def main():
     for func, fname, err in report:
         if err is not None:
             print("translator: UNTRANSLATABLE %s -> %s: %s" % (func, fname, err))
+    # further function-translator modules (one per group of functions): harness/translate_<group>.py with generate(report)
+    import glob, importlib, traceback
+    for path in sorted(glob.glob(os.path.join(HERE, "translate_*.py"))):
+        modname = os.path.basename(path)[:-3]
+        if modname == "translate_funcs":
+            continue
+        rep = []
+        try:
+            out = importlib.import_module(modname).generate(rep)
+        except Exception:                                   # a crashing translator module = its functions are untranslatable
+            print("translator: module %s failed:\n%s" % (modname, traceback.format_exc()[-1500:]))
+            continue
+        if isinstance(out, dict):
+            for name, content in out.items():
+                if write_if_changed(os.path.join(GEN, name), content):
+                    changed.append(name)
+        for item in rep:
+            if len(item) >= 3 and item[2] is not None:
+                print("translator: UNTRANSLATABLE %s -> %s: %s" % (item[0], item[1], item[2]))
     print("translator: %d file(s) changed: %s" % (len(changed), ", ".join(changed)))
     return 0
 
